@@ -3,6 +3,7 @@
 package engine
 
 import (
+	"errors"
 	"fmt"
 
 	"github.com/mk6i/mkdb/sql"
@@ -34,6 +35,13 @@ func verifH_C13_flusher() {
 	verifAssert(err == nil, "open")
 	if err != nil {
 		return
+	}
+	// cache=n: a page cache of n entries, so that one statement can fill it with
+	// dirty pages (then the statement may be refused with ErrLRUCacheFull, but
+	// nothing may reach the data file before its log append either)
+	smallCache := verifParam("cache", 0)
+	if smallCache > 0 {
+		storage.VerifSetCacheSize(rs, smallCache)
 	}
 	lock := storage.VerifStoreLock(rs)
 	myTicker := verifNumTickers() - 1
@@ -91,8 +99,10 @@ func verifH_C13_flusher() {
 		case "page.write", "header.write":
 			if g != 0 {
 				verifAssert(verifLockHeld(lock) == 2, "flusher-holds-the-lock-exclusively")
-				verifAssert(!(inStatement && dirtied && !logDone), "no-write-inside-a-statement")
 			}
+			// whoever writes: nothing reaches the data file between the statement's
+			// first change and the end of its log append
+			verifAssert(!(inStatement && dirtied && !logDone), "no-write-inside-a-statement")
 		case "ddl.changes.done":
 			// CREATE TABLE is not logged: its changes are complete here, before its own flush
 			if g == 0 {
@@ -139,6 +149,11 @@ func verifH_C13_flusher() {
 	inStatement = false
 	storage.VerifPoint = nil
 	verifWatchCalls(nil, nil)
+	if smallCache > 0 && err != nil {
+		verifAssert(errors.Is(err, storage.ErrLRUCacheFull), "refused-only-for-a-full-cache")
+		verifReach("refused-cache-full")
+		return
+	}
 	verifAssert(err == nil, "statement-ok")
 	// let the flusher finish whatever it was waiting for, then a regular tick
 	verifYield()
